@@ -74,17 +74,17 @@ pub fn e1_jobs(prop: &str, tier: Tier) -> (Vec<E1Job>, usize) {
     let pill = |d| E1Job { profile: Profile::Ill, depth: d, alt_map: false };
     let fam = if q { 64 } else { 400 };
     let jobs = match prop {
-        "C01" | "C05" => if q { vec![pa(3), E1Job { profile: Profile::A { times: vec![1, 3, 5] }, depth: 3, alt_map: true }, pbs(4), pc(6), pd(4), pe(1, true, 2), paj(4), pa15(4)] } else { vec![pa(4), pb(4), pc(8), pc3(9), paj(5), paj5(4), pd(6), pe(2, true, 2), pe(1, false, 3)] },
+        "C01" | "C05" => if q { vec![pa(3), E1Job { profile: Profile::A { times: vec![1, 3, 5] }, depth: 3, alt_map: true }, pbs(4), pc(6), pd(4), pe(1, true, 2), paj(4), pa15(4)] } else { vec![pa15(4), pb(4), pc(8), pc3(9), paj(5), paj5(4), pd(5), pe(2, true, 2), pe(1, false, 3), pa(4)] },
         "C02" => if q { vec![pb(3), pbs(4), pd(5)] } else { vec![pb(4), pbs(5), pd(6)] },
-        "C03" => if q { vec![pd(5), pf(4), pe(1, true, 2)] } else { vec![pd(7), pf(5), pe(2, true, 2)] },
+        "C03" => if q { vec![pd(5), pf(4), pe(1, true, 2)] } else { vec![pd(6), pf(5), pe(2, true, 2)] },
         "C04" => if q { vec![pa1(3), pbs(3), pc(6), paj(4), pd(4), pe(1, true, 2), pf(4), E1Job { profile: Profile::S, depth: 2, alt_map: false }, pc3(8)] } else { vec![pa(3), pbs(4), pc(8), pd(5), pe(2, true, 2), pf(5)] },
         "C07" => if q { vec![pe(1, true, 2), pe(2, true, 1), pe(1, false, 3)] } else { vec![pe(2, true, 2), pe(1, true, 3)] },
         "C10" => if q { vec![pa(3), pb(3), pbs(4), pc(6), pd(5), paj(4), pa15(4)] } else { vec![pa(3), pa1(4), pb(4), pbs(5), pc(8), pd(7)] },
         "C12" => if q { vec![pf(4)] } else { vec![pf(6)] },
         "C13" => if q { vec![pf(5), pe(1, true, 2), pe(2, true, 1), paj(3), E1Job { profile: Profile::S, depth: 3, alt_map: false }] } else { vec![pf(5), pe(2, true, 2), E1Job { profile: Profile::S, depth: 3, alt_map: false }] },
         "C04x" => vec![],
-        "C18" => if q { vec![pill(4), pc(7), pbs(3), pn(3), paj(4), pc3(9)] } else { vec![pill(5), pc(9), pc3(10), paj(5), pb(4), pn(4), pe(1, true, 2)] },
-        "C19" => if q { vec![pa15(3), pb(3), pd(5), pe(1, true, 2), pc(5), paj(4)] } else { vec![pa(3), pb(4), pd(6), pe(1, true, 2), pc(7), pf(4), paj(5), paj5(4)] },
+        "C18" => if q { vec![pill(4), pc(7), pbs(3), pn(3), paj(4), pc3(9)] } else { vec![pill(5), pc(8), pc3(10), paj(5), pb(4), pn(4), pe(1, true, 2)] },
+        "C19" => if q { vec![pa15(3), pb(3), pd(5), pe(1, true, 2), pc(5), paj(4)] } else { vec![pa(3), pb(3), pbs(4), pd(5), pe(1, true, 2), pc(6), pf(4), paj(5), paj5(4)] },
         "C20" => if q { vec![pn(5), pill(4), pb(3), pc(7), pd(5), pe(1, true, 2), paj(4), pa15(3)] } else { vec![pn(5), pb(4), pc(8), pd(6), pe(1, true, 2)] },
         _ => vec![],
     };
@@ -386,7 +386,7 @@ pub fn e2_jobs(prop: &str, tier: Tier) -> Vec<E2Job> {
             jobs.push(E2Job { label: "small batch plans".into(), scenarios: scen(&eb(2), &[Mode::Dispatch], &[1]), bounds: b(if q { 1 } else { 2 }), delay: false });
             if !q {
                 jobs.push(E2Job { label: "core plans depth 4, dispatch".into(), scenarios: scen(&core(vec![3], 4), &[Mode::Dispatch], &[1]), bounds: b(2), delay: false });
-                jobs.push(E2Job { label: "barrier plans".into(), scenarios: scen(&barr(4), &[Mode::Dispatch, Mode::Async], &[1, 2]), bounds: b(2), delay: false });
+                jobs.push(E2Job { label: "barrier plans of <= 3 ops".into(), scenarios: scen(&barr(3), &[Mode::Dispatch, Mode::Async], &[1, 2]), bounds: b(2), delay: false });
             }
         }
         _ => {}
@@ -440,8 +440,8 @@ pub fn e2_jobs(prop: &str, tier: Tier) -> Vec<E2Job> {
             jobs.push(E2Job { label: "small batch plans, 2 outer ops".into(), scenarios: scen(&eb(2), &[Mode::Dispatch, Mode::Par], &[1]), bounds: b(if q { 1 } else { 2 }), delay: false });
             jobs.push(E2Job { label: "single batch, 2 dispatches".into(), scenarios: scen(&eb(1), &[Mode::Dispatch, Mode::Async], &[2]), bounds: b(2), delay: false });
             if !q {
-                jobs.push(E2Job { label: "small batch plans, 3 outer ops".into(), scenarios: scen(&eb(3), &[Mode::Dispatch], &[1]), bounds: b(1), delay: false });
-                jobs.push(E2Job { label: "batch plans, inner plans of <= 1 op".into(), scenarios: scen(&batch(1, true, 2), &[Mode::Dispatch], &[1]), bounds: b(1), delay: false });
+                jobs.push(E2Job { label: "batch plans, inner plans of <= 1 op".into(), scenarios: scen(&batch(1, true, 2), &[Mode::Dispatch], &[1]), bounds: b(0), delay: false });
+                jobs.push(E2Job { label: "small batch plans, 3 outer ops".into(), scenarios: scen(&eb(3).into_iter().filter(|p| p.len() == 3).take(1500).collect::<Vec<_>>(), &[Mode::Dispatch], &[1]), bounds: b(0), delay: false });
             }
         }
         "C14" => {
@@ -480,7 +480,7 @@ pub fn e2_jobs(prop: &str, tier: Tier) -> Vec<E2Job> {
             };
             let dep_acc = acc(&[(&[], &[]), (&[], &[0]), (&[0], &[])]);
             let depplans = |d| distinct_plans(&Profile::B { access: dep_acc.clone(), times: vec![3], unnamed: false, dup: false, pairs: false }, d, 1);
-            jobs.push(E2Job { label: "dependency/access plans x every single panicking system x {fetch, run}, then a clean dispatch".into(), scenarios: panic_scen(&depplans(if q { 2 } else { 3 }), &[Mode::Dispatch, Mode::Seq], false), bounds: b(if q { 2 } else { 3 }), delay: false });
+            jobs.push(E2Job { label: "dependency/access plans x every single panicking system x {fetch, run}, then a clean dispatch".into(), scenarios: panic_scen(&depplans(if q { 2 } else { 3 }), &[Mode::Dispatch, Mode::Seq], false), bounds: b(2), delay: false });
             jobs.push(E2Job { label: "3-op plans, single panicking system".into(), scenarios: panic_scen(&depplans(3).into_iter().filter(|p| p.len() == 3).collect::<Vec<_>>(), &[Mode::Dispatch], !q), bounds: b(if q { 1 } else { 2 }), delay: false });
             {
                 // plans in which the balancing rule really forms groups of 2+ systems (running-time hints 1..3),
@@ -505,7 +505,7 @@ pub fn e2_jobs(prop: &str, tier: Tier) -> Vec<E2Job> {
             }
             jobs.push(E2Job { label: "thread-local and batch plans, single panicking system (incl. inside batches, thread-local)".into(), scenarios: panic_scen(&[tl(2), eb(1)].concat(), &[Mode::Dispatch, Mode::Seq], !q), bounds: b(if q { 1 } else { 2 }), delay: false });
             if !q {
-                jobs.push(E2Job { label: "small batch plans with an outer system".into(), scenarios: panic_scen(&eb(2), &[Mode::Dispatch], false), bounds: b(1), delay: false });
+                jobs.push(E2Job { label: "small batch plans with an outer system".into(), scenarios: panic_scen(&eb(2), &[Mode::Dispatch], false), bounds: b(0), delay: false });
             }
         }
         "C12" => {
